@@ -126,6 +126,8 @@ out:
 #include <openssl/kdf.h>
 #include <openssl/core_names.h>
 #include <openssl/sha.h>
+#include <openssl/x509.h>
+#include <openssl/pem.h>
 static int tls12_prf(const unsigned char *secret, int sl, const char *label, const unsigned char *seed, int seedl, unsigned char *out, int outl)
 {
     EVP_KDF *kdf = EVP_KDF_fetch(NULL, "TLS1-PRF", NULL); if (!kdf) return -1; EVP_KDF_CTX *kc = EVP_KDF_CTX_new(kdf); EVP_KDF_free(kdf);
@@ -237,6 +239,139 @@ static void run_noauth(void *a_)
     mx_conn_close(&k); matrixSslDeleteSessionId(asid); matrixSslDeleteSessionId(hsid); MX_ENTER(); matrixSslDeleteKeys(ak); MX_LEAVE();
 }
 
+/* ================================================================ client-auth server x client credential x "the ClientHello offers a PSK / ticket / session id" ====
+ * A server configured for client authentication completes only with a client that was authenticated by certificate (the server's
+ * callback was shown the chain and what it answered allows completion) or by a PSK / ticket / cached session the server actually
+ * accepted.  Dimension added here: what the client OFFERS for resumption, against a server that cannot use it -
+ *   TLS 1.3   external PSK the server does not know (server without any PSK / with another identity), known identity with another key,
+ *             resumption ticket after the server's ticket key was rotated / deleted, ticket with a flipped byte, ticket after its lifetime;
+ *   TLS<=1.2  RFC 5077 ticket after key rotation / deletion, tampered ticket, ticket after its lifetime, a session id the server never issued;
+ * next to the usable offers (valid ticket, valid external PSK, cached session id) and no offer at all, for a client holding a valid
+ * certificate, a certificate from a CA the server does not trust, or no certificate.  The offer is a fact of the case's construction
+ * (which key material the server's key set holds), and the ClientHello is parsed to make sure the offer is really on the wire. */
+enum { OF_NONE = 0, OF_EXTPSK_UNKNOWN, OF_EXTPSK_OTHER_ID, OF_EXTPSK_WRONG_KEY, OF_TICKET_ROTATED, OF_TICKET_KEY_DELETED, OF_TICKET_TAMPERED, OF_TICKET_EXPIRED, OF_UNKNOWN_SID,
+       OF_TICKET_VALID, OF_EXTPSK_VALID, OF_SID_VALID, OF_N };
+static const char *ofname[] = { "no-offer", "unknown-external-psk", "unknown-external-psk-server-holds-another", "external-psk-identity-known-key-differs", "ticket-after-key-rotation", "ticket-after-key-deletion", "tampered-ticket", "ticket-after-lifetime",
+                                "session-id-never-issued", "valid-ticket", "valid-external-psk", "cached-session-id" };
+enum { OC_NONE = 0, OC_UNUSABLE, OC_EITHER, OC_USABLE };                /* by construction: can the server use what is offered? (expired: lifetime policy is not C04's business) */
+static int of_class(int of) { return of == OF_NONE ? OC_NONE : of == OF_TICKET_EXPIRED ? OC_EITHER : of >= OF_TICKET_VALID ? OC_USABLE : OC_UNUSABLE; }
+static int of_applies(int of, int ver) { int t13 = ver == MX_TLS13; if (of == OF_EXTPSK_UNKNOWN || of == OF_EXTPSK_OTHER_ID || of == OF_EXTPSK_WRONG_KEY || of == OF_EXTPSK_VALID) return t13; if (of == OF_UNKNOWN_SID || of == OF_SID_VALID) return !t13; return 1; }
+static int of_is_ticket(int of) { return of == OF_TICKET_ROTATED || of == OF_TICKET_KEY_DELETED || of == OF_TICKET_TAMPERED || of == OF_TICKET_EXPIRED || of == OF_TICKET_VALID; }
+enum { CR_NONE = 0, CR_UNTRUSTED, CR_VALID, CR_N };
+static const char *crname[] = { "client-without-certificate", "client-with-untrusted-certificate", "client-with-valid-certificate" };
+typedef struct { int ver, of, cr, cb; } ofcase_t;
+static const unsigned char of_psk_id[] = "c04-offer-psk", of_psk_id2[] = "c04-some-other-psk";
+static sslKeys_t *of_skeys(int ticketGen, int psk /* 0 none, 1 the client's, 2 another identity, 3 the client's identity with another key */)
+{
+    sslKeys_t *k = NULL; unsigned char key[32]; MX_ENTER(); matrixSslNewKeys(&k, NULL);
+    int rc = matrixSslLoadKeys(k, MX_TK "RSA/2048_RSA.pem", MX_TK "RSA/2048_RSA_KEY.pem", NULL, MX_TK "RSA/2048_RSA_CA.pem", NULL);
+    if (rc >= 0 && ticketGen) { unsigned char tn[16], tk[32], th[32]; memset(tn, 0x40 + ticketGen, 16); memset(tk, 0x10 * ticketGen, 32); memset(th, 0x11 * ticketGen, 32); rc = matrixSslLoadSessionTicketKeys(k, tn, tk, 32, th, 32); }
+    if (rc >= 0 && psk) { memset(key, psk == 3 ? 0x77 : 0x5a, 32); rc = psk == 2 ? matrixSslLoadTls13Psk(k, key, 32, of_psk_id2, sizeof of_psk_id2 - 1, NULL) : matrixSslLoadTls13Psk(k, key, 32, of_psk_id, sizeof of_psk_id - 1, NULL); }
+    MX_LEAVE(); if (rc < 0) { MX_ENTER(); matrixSslDeleteKeys(k); MX_LEAVE(); return NULL; }
+    return k;
+}
+static sslKeys_t *of_ckeys(int cr, int psk)
+{
+    sslKeys_t *k = NULL; int rc; unsigned char key[32]; MX_ENTER(); matrixSslNewKeys(&k, NULL); MX_LEAVE();
+    if (cr == CR_UNTRUSTED) {   /* a certificate that NAMES the CA the server trusts as its issuer (so that the client picks it for the server's CertificateRequest) but is signed by a key the server has never seen */
+        static unsigned char dn[512]; int dnl = 0; FILE *f = fopen(MX_TK "RSA/2048_RSA_CA.pem", "r"); X509 *x = f ? PEM_read_X509(f, NULL, NULL, NULL) : NULL; if (f) fclose(f);
+        if (x) { unsigned char *q = dn; int l = i2d_X509_NAME(X509_get_subject_name(x), NULL); if (l > 0 && l <= (int) sizeof dn) dnl = i2d_X509_NAME(X509_get_subject_name(x), &q); X509_free(x); }
+        const cg_key *fk = cg_key_get(CG_K_RSA2048, 3), *lk = cg_key_get(CG_K_RSA2048, 2); cg_spec fake, leaf; cg_cert lc = { 0 }; if (dnl <= 0 || !fk || !lk) return NULL;
+        cg_spec_ca(&fake, "Verif C04", "c04 impostor CA", fk, NULL, NULL, mx_now, -1); fake.subject.raw = dn; fake.subject.rawlen = dnl;
+        cg_spec_leaf(&leaf, "Verif C04", "client.c04.test", lk, &fake, fk, mx_now); if (cg_make_cert(&leaf, &lc)) return NULL;
+        char *cp = cg_pem("CERTIFICATE", lc.der, lc.len), *kp = cg_key_priv_pem(lk, 0); cg_cert_free(&lc);
+        MX_ENTER(); rc = matrixSslLoadKeysMem(k, (unsigned char *) cp, (int32) strlen(cp), (unsigned char *) kp, (int32) strlen(kp), NULL, 0, NULL);
+        if (rc >= 0) rc = matrixSslLoadKeys(k, NULL, NULL, NULL, MX_TK "RSA/2048_RSA_CA.pem", NULL); MX_LEAVE();
+        free(cp); free(kp);
+    } else { MX_ENTER(); rc = matrixSslLoadKeys(k, cr == CR_VALID ? MX_TK "RSA/2048_RSA.pem" : NULL, cr == CR_VALID ? MX_TK "RSA/2048_RSA_KEY.pem" : NULL, NULL, MX_TK "RSA/2048_RSA_CA.pem", NULL); MX_LEAVE(); }
+    if (rc >= 0 && psk) { memset(key, 0x5a, 32); MX_ENTER(); rc = matrixSslLoadTls13Psk(k, key, 32, of_psk_id, sizeof of_psk_id - 1, NULL); MX_LEAVE(); }
+    if (rc < 0) { MX_ENTER(); matrixSslDeleteKeys(k); MX_LEAVE(); return NULL; }
+    return k;
+}
+static int of_open(mx_conn *k, int ver, uint16_t suite, int ticket, sslKeys_t *sk, sslKeys_t *ck, sslSessionId_t *sid, sslCertCb_t scb)
+{
+    mx_cfg cfg = { .ver = ver, .suite = suite, .clientAuth = 1, .useTicket = ticket, .skeys = sk, .ckeys = ck }; sslSessOpts_t o; int rc;
+    memset(k, 0, sizeof *k); k->cfg = cfg; k->dtls = MX_IS_DTLS(ver);
+    mx_opts(&o, &cfg, MX_SERVER); k->s.role = MX_SERVER; k->s.ver = ver; k->s.id = 1; k->s.name = "S";
+    mx_actor = 1; MX_ENTER(); rc = matrixSslNewServerSession(&k->s.ssl, sk, scb, &o); MX_LEAVE(); if (rc < 0) return -1;
+    mx_opts(&o, &cfg, MX_CLIENT); k->c.role = MX_CLIENT; k->c.ver = ver; k->c.id = 0; k->c.name = "C"; k->c.wantTake = 1; k->c.sid = sid; psCipher16_t cs[1] = { suite };
+    mx_actor = 0; MX_ENTER(); rc = matrixSslNewClientSession(&k->c.ssl, ck, sid, cs, 1, mx_cert_cb_accept, NULL, NULL, NULL, &o); MX_LEAVE(); if (rc < 0) { mx_ep_free(&k->s); return -2; }
+    return 0;
+}
+/* what the ClientHello on the wire offers: bit 0 pre_shared_key extension (TLS 1.3), bit 1 non-empty session_ticket extension, bit 2 non-empty session id */
+static int of_on_wire(const unsigned char *w, int n, int dtls)
+{
+    int h = dtls ? 13 : 5, hh = dtls ? 12 : 4, r = 0; if (n < h + hh + 35) return 0;
+    const unsigned char *b = w + h + hh, *e = w + n; int reclen = (w[h - 2] << 8) | w[h - 1]; if (w + h + reclen < e) e = w + h + reclen;
+    b += 2 + 32; int l = *b++; if (l > 0 && w[h] == 1) r |= 4; b += l; if (dtls) { if (b >= e) return r; b += 1 + b[0]; }
+    if (b + 2 > e) return r; b += 2 + ((b[0] << 8) | b[1]); if (b + 1 > e) return r; b += 1 + b[0]; if (b + 2 > e) return r; b += 2;
+    while (b + 4 <= e) { int t = (b[0] << 8) | b[1], el = (b[2] << 8) | b[3]; if (t == 41) r |= 1; if (t == 35 && el > 0) r |= 2; b += 4 + el; }
+    return r;
+}
+static void run_offer(void *a_)
+{
+    ofcase_t *oc = a_; int ver = oc->ver, of = oc->of, t13 = ver == MX_TLS13, cls = of_class(of); vf_stat("cases", 1); vf_stat("offer_cases", 1);
+    uint16_t suite = t13 ? 0x1301 : (ver == MX_TLS11 ? 0xc013 : 0xc02f); mx_conn k; long realNow = mx_now;
+    int extpsk = of == OF_EXTPSK_UNKNOWN || of == OF_EXTPSK_OTHER_ID || of == OF_EXTPSK_WRONG_KEY || of == OF_EXTPSK_VALID, ticket = of_is_ticket(of);
+    sslSessionId_t *sid; matrixSslNewSessionId(&sid, NULL); sslKeys_t *sk1 = NULL, *ck1 = NULL, *sk2 = NULL, *ck2 = NULL;
+    /* 1. honest, client-authenticated priming connection (valid certificate) that leaves the client with a ticket / a session id */
+    if (ticket || of == OF_SID_VALID) {
+        sk1 = of_skeys(ticket ? 1 : 0, 0); ck1 = of_ckeys(CR_VALID, 0);
+        if (!sk1 || !ck1 || of_open(&k, ver, suite, ticket, sk1, ck1, sid, mx_cert_cb_strict) != 0) { vf_incon("offer: priming setup failed (%s)", cur_desc); return; }
+        mx_conn_run(&k, NULL, NULL, 300); int ok = mx_conn_established(&k);
+        if (ok) { unsigned char p[32]; mx_payload(p, 32, 0x0c04, 1, 7); mx_send(&k.s, p, 32); mx_conn_run(&k, NULL, NULL, 50); ok = k.c.gotlen == 32; }
+        if (ok) { MX_ENTER(); matrixSslEncodeClosureAlert(k.c.ssl); MX_LEAVE(); k.c.wantTake = 1; mx_conn_run(&k, NULL, NULL, 20); }
+        mx_conn_close(&k);
+        int have = t13 ? sid->psk != NULL : ticket ? sid->sessionTicketLen > 0 : sid->idLen > 0;
+        if (!ok || !have) { vf_incon("offer: priming connection gave the client nothing to offer (%s, established=%d)", cur_desc, ok); return; }
+    }
+    /* 2. the world changes / the client edits its own cache */
+    if (of == OF_TICKET_TAMPERED) { if (t13) sid->psk->pskId[sid->psk->pskIdLen / 2] ^= 0x20; else sid->sessionTicket[sid->sessionTicketLen / 2] ^= 0x20; }
+    if (of == OF_TICKET_EXPIRED) mx_now += 2L * 86400;
+    if (of == OF_UNKNOWN_SID) { vf_rng r; vf_rng_init(&r, vf_seed, 0x0c04); vf_fill(&r, sid->id, 32); sid->idLen = 32; vf_fill(&r, sid->masterSecret, 48); sid->cipherId = suite; }
+    if (of == OF_TICKET_KEY_DELETED && sk1) { unsigned char tn[16]; memset(tn, 0x41, 16); sk2 = sk1; sk1 = NULL; MX_ENTER(); int dr = matrixSslDeleteSessionTicketKey(sk2, tn); MX_LEAVE(); if (dr < 0) { vf_incon("offer: matrixSslDeleteSessionTicketKey rc=%d", dr); return; } }
+    else if (of == OF_TICKET_VALID || of == OF_TICKET_TAMPERED || of == OF_TICKET_EXPIRED || of == OF_SID_VALID) { sk2 = sk1; sk1 = NULL; }
+    else sk2 = of_skeys(of == OF_TICKET_ROTATED ? 2 : (of == OF_NONE || extpsk) ? 1 : 0, of == OF_EXTPSK_VALID ? 1 : of == OF_EXTPSK_OTHER_ID ? 2 : of == OF_EXTPSK_WRONG_KEY ? 3 : 0);
+    ck2 = of_ckeys(oc->cr, extpsk);
+    /* 3. the connection under test */
+    sslCertCb_t vcb = cb_fn(oc->cb); cb_reset();
+    if (!sk2 || !ck2 || of_open(&k, ver, suite, ticket, sk2, ck2, sid, vcb) != 0) { vf_incon("offer: setup failed (%s)", cur_desc); mx_now = realNow; return; }
+    mx_conn_run(&k, NULL, NULL, 300);
+    int wire = of_on_wire(k.wire[0], k.wirelen[0], k.dtls) & (t13 ? 3 : 7), want = cls == OC_NONE ? 0 : t13 ? 1 : ticket ? 2 : 4;
+    int sdone = !k.s.dead && k.s.ssl && (k.s.hsDone || matrixSslHandshakeIsComplete(k.s.ssl)), both = sdone && mx_conn_established(&k);
+    int resumed = k.s.ssl ? (t13 ? (int) k.s.ssl->sec.tls13UsingPsk : !!(k.s.ssl->flags & SSL_FLAGS_RESUMED)) : 0, alert = k.s.ssl ? k.s.ssl->err : 0, delivered = 0;
+    if (both) { unsigned char p[64]; mx_payload(p, 64, 0x0c04, 0, 9); mx_send(&k.c, p, 64); mx_conn_run(&k, NULL, NULL, 20); delivered = k.s.gotlen == 64; }
+    if (vf_verbose) fprintf(stderr, "c04-offer %s: wire=%d server done=%d resumed=%d alert=%d cb calls=%d nonzero=%d last=%d chain=%d | client done=%d dead=%d | delivered=%d\n", cur_desc, wire, sdone, resumed, alert, cb_calls, cb_nonzero, cb_last, cb_chainlen, k.c.hsDone, k.c.dead, delivered);
+    if (of != OF_TICKET_EXPIRED && (wire & (want ? want : 7)) != want) { vf_incon("offer: the ClientHello does not carry what the case is about (%s: wire %d, wanted %d)", cur_desc, wire, want); goto out; }
+    vf_distinct("offer|%s|%s|%s|%s", mx_vername[ver], ofname[of], crname[oc->cr], cbname[oc->cb]);
+    vf_statf(1, "offer_%s_%s_%s_%s", mx_vername[ver], ofname[of], crname[oc->cr] + 7, sdone ? (resumed ? "RESUMED" : "COMPLETE-by-certificate") : "refused");
+    {
+        char key[240]; const char *clause = NULL;
+        int byPsk = resumed && (cls == OC_USABLE || cls == OC_EITHER);
+        if (sdone && resumed && !byPsk) clause = "server-resumed-from-an-offer-it-cannot-verify";
+        else if (sdone && !byPsk) {
+            if (cb_calls == 0) clause = "client-auth-server-completed-with-unauthenticated-client";                      /* nobody looked at a certificate, no PSK was accepted */
+            else if (oc->cr == CR_VALID) { if (cb_nonzero && !CB_OVERRIDES(oc->cb)) clause = "completed-despite-validation-failure"; }
+            else if (!CB_OVERRIDES(oc->cb)) clause = "client-auth-server-completed-with-unauthenticated-client";         /* strict callback, and the client has no acceptable certificate */
+            else if (cb_nonzero == 0) clause = "failure-not-shown-to-callback";
+        }
+        if (clause) { snprintf(key, sizeof key, "c04:%s:%s:%s:%s:%s", clause, mx_vername[ver], ofname[of], crname[oc->cr], cbname[oc->cb]);
+            vf_violation(key, cur_desc, "a server configured for client authentication reports a completed handshake with a %s whose ClientHello offered: %s (usable by this server: %s). Server resumed=%d, certificate callback calls %d (non-zero alerts %d, last %d, certificates shown %d), client's application data delivered=%d",
+                         crname[oc->cr], ofname[of], cls == OC_USABLE ? "yes" : cls == OC_EITHER ? "policy" : "no", resumed, cb_calls, cb_nonzero, cb_last, cb_chainlen, delivered); }
+        else if (sdone) vf_stat(byPsk ? "offer_completed_by_accepted_psk" : oc->cr == CR_VALID ? "offer_completed_by_certificate" : "offer_completed_by_application_override", 1);
+        else { vf_stat("offer_refused", 1); if (oc->cr == CR_UNTRUSTED && cls != OC_USABLE) vf_stat(cb_chainlen ? "offer_untrusted_certificate_shown_to_callback" : "offer_untrusted_certificate_refused_before_callback", 1); }
+        /* toothlessness guards: the holder of a valid certificate completes whatever unusable thing it offers next to it (the fall-back to a full handshake works; offers that fail an integrity check may instead abort), and a usable offer resumes */
+        if (oc->cr == CR_VALID && !both && (of == OF_EXTPSK_WRONG_KEY || of == OF_TICKET_TAMPERED)) vf_statf(1, "offer_failing_integrity_check_aborts_%s_%s_alert%d", mx_vername[ver], ofname[of], alert);   /* a binder / ticket MAC that does not verify may end the handshake: refusing is never an authentication failure */
+        else if (oc->cr == CR_VALID && !both) { snprintf(key, sizeof key, "c04:good-credentials-refused:%s:%s:%s", mx_vername[ver], ofname[of], cbname[oc->cb]);
+            vf_violation(key, cur_desc, "a client with a valid certificate offering %s did not complete with the client-auth server (server alert %d, callback calls %d last %d, resumed=%d)", ofname[of], alert, cb_calls, cb_last, resumed); }
+        if (cls == OC_USABLE && !(both && resumed)) { snprintf(key, sizeof key, "c04:harness:usable-offer-not-resumed:%s:%s", mx_vername[ver], ofname[of]);
+            if (oc->cr == CR_VALID) vf_violation(key, cur_desc, "control: %s was not accepted for resumption (complete=%d resumed=%d alert %d)", ofname[of], both, resumed, alert); }
+    }
+out:
+    mx_now = realNow; mx_conn_close(&k); matrixSslDeleteSessionId(sid);
+    MX_ENTER(); if (sk1) matrixSslDeleteKeys(sk1); if (ck1) matrixSslDeleteKeys(ck1); if (sk2) matrixSslDeleteKeys(sk2); if (ck2) matrixSslDeleteKeys(ck2); MX_LEAVE();
+}
+
 int main(int argc, char **argv)
 {
     vf_init(argc, argv); mx_global_init();
@@ -303,6 +438,18 @@ int main(int argc, char **argv)
         if (vf_case && strcmp(vf_case, cur_desc)) continue;
         mx_entropy_seed(vf_seed * 41 + idx);
         vf_fork_case(run_noauth, &nc, "c04", cur_desc, 120);
+      } }
+    /* client-auth server x what the ClientHello offers for resumption x client credential x server callback */
+    { static const int vers[] = { MX_TLS13, MX_TLS12, MX_TLS11, MX_DTLS12 };
+      for (int vi = 0; vi < 4; vi++) for (int of = 0; of < OF_N; of++) for (int cr = 0; cr < CR_N; cr++) for (int cb = CB_STRICT; cb <= CB_ANON; cb++) {
+        if (!of_applies(of, vers[vi])) continue;
+        if (!vf_mine(idx++)) continue;
+        ofcase_t oc = { vers[vi], of, cr, cb };
+        snprintf(cur_desc, sizeof cur_desc, "offer ver=%s %s %s cb=%s", mx_vername[vers[vi]], ofname[of], crname[cr], cbname[cb]);
+        if (vf_case && strcmp(vf_case, cur_desc)) continue;
+        if (idx % 29 == 0) vf_sample("%s", cur_desc);
+        mx_entropy_seed(vf_seed * 59 + idx);
+        vf_fork_case(run_offer, &oc, "c04", cur_desc, 120);
       } }
     matrixSslClose(); vf_flush();
     return 0;
